@@ -9,7 +9,10 @@
     One authenticator (prototype, possibly reconfigured per request on the rule level: the copies share the
     endpoint and hence the cache entries) serves a history of requests against one cache.  Between the
     requests the key sets published at the rendered URLs may change.  Time does not advance far enough for an
-    entry to expire (expiry is C10's subject).  Keys carry no certificates in this stream.
+    entry to expire (expiry is C10's subject).  Several authenticators sharing the endpoint configuration (and
+    hence the cache entries) but differing in validate_jwk are histories whose requests carry different
+    [cf_validate_jwk]; keys may carry certificates (valid or not; certificates about to expire, which
+    getCacheTTL refuses to cache, are not in this model).
 
     The cache is a list of ((rendered url, kid), key); the endpoint hash is the same for all entries of one
     authenticator and is left out.  Faithful to the code as it is: the cached key is returned without any
@@ -57,19 +60,27 @@ Record kstep := {
 Definition url_of (templated : bool) (t : token) : string :=
   if templated then c_iss (t_claims t) else EmptyString.
 
-(** getKey *)
-Definition get_key_c (s : kstep) (url kid : string) (c : kcache) : (err + jwk) * kcache :=
-  match (if s_cache_on s then cache_find c url kid else None) with
-  | Some k => (inr k, c)                                            (* "Reusing JWK from cache" *)
-  | None =>
-    match fetch (s_env s) url with
-    | inl e => (inl e, c)
-    | inr ks =>
-      match get_key (s_cf s) ks kid with
-      | None => (inl EKey, c)
-      | Some k => (inr k, if s_cache_on s then ((url, kid), k) :: c else c)
-      end
+(** getKey after a cache miss: fetch, uniqueness, certificate check, cache fill *)
+Definition fetch_fill (s : kstep) (url kid : string) (c : kcache) : (err + jwk) * kcache :=
+  match fetch (s_env s) url with
+  | inl e => (inl e, c)
+  | inr ks =>
+    match get_key (s_cf s) ks kid with
+    | None => (inl EKey, c)
+    | Some k => (inr k, if s_cache_on s then ((url, kid), k) :: c else c)
     end
+  end.
+
+(** getKey.  The cached key is returned without any re-validation (C05-F4: the cache key covers neither
+    validate_jwk nor the trust store, so an authenticator that validates JWK certificates reuses what a laxer
+    one sharing the endpoint has cached).  [fixed_F4] = fixes/C05-F4.diff: the cached key is validated with the
+    settings of the authenticator at hand, an entry that does not pass is ignored. *)
+Definition get_key_c (fixed_F4 : bool) (s : kstep) (url kid : string) (c : kcache) : (err + jwk) * kcache :=
+  match (if s_cache_on s then cache_find c url kid else None) with
+  | Some k => if negb fixed_F4 || key_valid (s_cf s) k
+              then (inr k, c)                                       (* "Reusing JWK from cache" *)
+              else fetch_fill s url kid c
+  | None => fetch_fill s url kid c
   end.
 
 Definition finish (cf : config) (t : token) (r : option err) : result :=
@@ -80,7 +91,7 @@ Definition finish (cf : config) (t : token) (r : option err) : result :=
   end.
 
 (** Execute with the cache in the request context *)
-Definition step_c (f1 f2 : bool) (s : kstep) (c : kcache) : result * kcache :=
+Definition step_c (f1 f2 f4 : bool) (s : kstep) (c : kcache) : result * kcache :=
   match s_cred s with
   | CNone => (Failed ENoCreds, c)
   | CUnparsable => (Failed EParse, c)
@@ -96,18 +107,18 @@ Definition step_c (f1 f2 : bool) (s : kstep) (c : kcache) : result * kcache :=
            | inl er => (Failed er, c)
            | inr ks => (finish cf t (if verify_without_kid f1 f2 cf e (s_now s) t ks then None else Some ENoneOfKeys), c)
            end
-      else match get_key_c s url (t_kid t) c with
+      else match get_key_c f4 s url (t_kid t) c with
            | (inl er, c') => (Failed er, c')
            | (inr k, c') => (finish cf t (verify_with_key f1 f2 e (s_now s) t k), c')
            end
   end.
 
 (** a history against an initially empty cache: the answers, and the final cache *)
-Fixpoint run_c (f1 f2 : bool) (h : list kstep) (c : kcache) : list result * kcache :=
+Fixpoint run_c (f1 f2 f4 : bool) (h : list kstep) (c : kcache) : list result * kcache :=
   match h with
   | [] => ([], c)
-  | s :: r => let '(x, c') := step_c f1 f2 s c in
-              let '(xs, c'') := run_c f1 f2 r c' in (x :: xs, c'')
+  | s :: r => let '(x, c') := step_c f1 f2 f4 s c in
+              let '(xs, c'') := run_c f1 f2 f4 r c' in (x :: xs, c'')
   end.
 
-Definition run_history (f1 f2 : bool) (h : list kstep) : list result := fst (run_c f1 f2 h []).
+Definition run_history (f1 f2 f4 : bool) (h : list kstep) : list result := fst (run_c f1 f2 f4 h []).
